@@ -71,6 +71,8 @@ def check(run, prog):
     skw_bb = DictV({"center_freq": Num(cf * Hz, kind="quantity")})
     skw_int = DictV({"center_freq": Num(cf * Hz, kind="quantity"), "chan_bw": Num(FS * Hz, kind="quantity")})
     mask = NdArr((2,), [BoolV(True), BoolV(False)])
+    mask_int = NdArr((2,), [Num(1), Num(0)])           # flags written as integers: the same channels, selected by truth value
+    mask_int.dtype = ExtV("numpy.int64")
     scen = [
         ("real-sampled baseband", "BasebandReader", False, (2,), "float32", {"signal_type": "BasebandSignal", "signal_kwargs": skw_bb}, 2, "complex64"),
         ("complex baseband, upper sideband", "BasebandReader", True, (2,), "complex64", {"signal_type": "BasebandSignal", "signal_kwargs": skw_bb}, 1, "complex64"),
@@ -78,6 +80,8 @@ def check(run, prog):
          {"signal_type": "BasebandSignal", "signal_kwargs": skw_bb, "lower_sideband": BoolV(True)}, 1, "complex64"),
         ("complex baseband, per-channel sideband mask", "BasebandReader", True, (2,), "complex64",
          {"signal_type": "BasebandSignal", "signal_kwargs": skw_bb, "lower_sideband": mask}, 1, "complex64"),
+        ("complex baseband, per-channel sideband mask given as 1/0 integers", "BasebandReader", True, (2,), "complex64",
+         {"signal_type": "BasebandSignal", "signal_kwargs": skw_bb, "lower_sideband": mask_int}, 1, "complex64"),
         ("intensity data (lower sideband flag set)", "BasebandReader", False, (2,), "float32",
          {"signal_type": "IntensitySignal", "signal_kwargs": skw_int, "lower_sideband": BoolV(True)}, 1, "float32"),
     ]
